@@ -431,6 +431,36 @@ def ob_accessor_contract(name, table):
     return Verdict(DISCHARGED, backend="extracted accessor on a recording receiver, callee by contract", sub=4)
 
 
+def ob_hermitian_accessor_contract(name, table):
+    """the Hermitian accessors of the Euler-Bernoulli groups against the contract of their callee: Get_Hermitian_<x>_pg() == _Eval_Functions(self._Hermitian_<x>(), Get_gauss(MatrixType.beam).coord)
+    for a 1-dimensional group (the beam quadrature, whatever the caller assembles), None otherwise"""
+    from vt import sx
+    from EasyFEA.FEM._utils import MatrixType
+    path = "EasyFEA/FEM/Elems/_beam.py"
+    fn = extract.get(path, f"_EulerBernoulli.{name}")
+    calls, asked = [], []
+    T, G, R = object(), object(), object()
+
+    class _Stub:
+        @staticmethod
+        def _Eval_Functions(functions, gaussPoints):
+            calls.append((functions, gaussPoints))
+            return R
+    g = sx.module_globals("EasyFEA.FEM.Elems._beam", _GroupElem=_Stub)
+    f = extract.compile_fn(fn, g, exact=False)
+    tabs = ("_Hermitian_N", "_Hermitian_dN", "_Hermitian_ddN", "_Hermitian_dddN")
+    others = {t: (lambda t=t: (_ for _ in ()).throw(Refuted(f"{name} reads the table {t} instead of {table}", signature=f"accessor:{name}:table"))) for t in tabs if t != table}
+    me = sx.Mock("self", dim=1, Get_gauss=lambda mt: (asked.append(mt), sx.Mock("gauss", coord=G))[1], **{table: (lambda: T)}, **others)
+    got = f(me)
+    if got is not R or calls != [(T, G)] or asked != [MatrixType.beam]:
+        raise Refuted(f"{name}: returns {'the evaluated table' if got is R else 'something else'}; _Eval_Functions called {len(calls)} time(s) "
+                      f"{'with the table and the points' if calls == [(T, G)] else 'with other arguments'}; Get_gauss asked for {asked} (expected the beam quadrature)",
+                      signature=f"accessor:{name}:contract", replay=dict(confirmed=False))
+    if f(sx.Mock("self", dim=2)) is not None:
+        raise Refuted(f"{name} of a group that is not 1-dimensional is not None", signature=f"accessor:{name}:dim", replay=dict(confirmed=False))
+    return Verdict(DISCHARGED, backend="extracted accessor on a recording receiver, callee by contract", sub=4)
+
+
 def ob_accessors(et):
     """the public accessors serve the tables: Get_N_pg, Get_dN_pg, Get_ddN_pg, Get_dddN_pg, Get_ddddN_pg (matrixType) == the tabulated functions _N ... _ddddN
     evaluated at the integration points of that matrix type -- for every derivative order, whether or not the derivative vanishes for this element."""
@@ -491,6 +521,9 @@ def build(tier, seed):
     for name, table in (("Get_N_pg", "_N"), ("Get_dN_pg", "_dN"), ("Get_ddN_pg", "_ddN"), ("Get_dddN_pg", "_dddN"), ("Get_ddddN_pg", "_ddddN")):
         obs.append(Ob(f"C06.accessor.contract.{name}", ob_accessor_contract, (name, table), "P", (f"{common.GROUP_PATH}::_GroupElem.{name}", f"{common.GROUP_PATH}::_GroupElem._Eval_Functions"),
                       clause=f"{name}(matrixType) == _Eval_Functions({table}(), Get_gauss(matrixType).coord) (callee by its contract); None for dim 0"))
+    for name, table in (("Get_Hermitian_N_pg", "_Hermitian_N"), ("Get_Hermitian_dN_pg", "_Hermitian_dN"), ("Get_Hermitian_ddN_pg", "_Hermitian_ddN"), ("Get_Hermitian_dddN_pg", "_Hermitian_dddN")):
+        obs.append(Ob(f"C06.accessor.contract.{name}", ob_hermitian_accessor_contract, (name, table), "P", (f"EasyFEA/FEM/Elems/_beam.py::_EulerBernoulli.{name}", f"{common.GROUP_PATH}::_GroupElem._Eval_Functions"),
+                      clause=f"{name}() == _Eval_Functions({table}(), Get_gauss(MatrixType.beam).coord) for a 1-dimensional group (callee by its contract); None otherwise"))
     obs.append(Ob("C06._Eval_Functions.loops", ob_eval_functions_loops, (), "P", (f"{common.GROUP_PATH}::_GroupElem._Eval_Functions",),
                   clause="forall nPg, nF, nPe: out[p, f, n] == functions[n, f](*gaussPoints[p]) for every index within the bounds, shape (nPg, nF, nPe): loop contract, 8 verification conditions"))
     obs.append(Ob("canary.eval.loops", ob_eval_functions_loops, (True,), "P", expect=REFUTED))
